@@ -23,7 +23,21 @@ CHECKS = {
   note="The network is a stub (no network exists here); disk faults are not injected for this property (the statement speaks of transfer failures). In-body failures end in a traceback today; only 'no partial file, non-zero status' is required for them."),
 }
 
+ADDED = {
+ "C01": "snippet markers on 4096 boundaries; symlinks; 18-110 file trees (also under a descriptor limit of 40-64); tracked-but-ignored files, adjacent ignored directories, user-level ignore rules, Git's top level above the project; submodules, Meson subprojects; REUSE.toml hierarchies; annotations with overlapping and star-adjacent globs; hard-linked names; empty .license companions.",
+ "C09": "several files per invocation (set order from the hash seed), twins of one type, same-suffix files of different types, never-named bystander files; failing opens and writes of the target; a named file that cannot be annotated; histories typed from a sub-directory; headers beyond 4 KiB; 'exit 0 means every named file was annotated or skipped on request'.",
+ "C10": "a fresh interpreter and hash seed per command; simulated file modification times and file ages; calendar edges (ISO-week year, leap day); per-command directory-listing order; stdout reader gone; a first run that dies while writing; a concurrent re-run on a sibling file at a chosen file-system event; template variants side by side; stacked suffixes; byte order marks; ready-made notices, notice-like and terminator-ending contributors; deprecated '+' identifiers; binary files with --style.",
+ "C11": "hash-seed-ordered batches, twins that render to the same header, batches of 36-70 files with multiprocessing allowed under a seeded pool schedule and a descriptor limit; aliases (hard link / symlink) of an unrecognised file; paths that do not exist; broken standard error; information-dropping and partially dropping templates with complete 'commented' decoys; recursion from sub-directories.",
+ "C14": "the project directory's own name; submodules; roots spelled through symlinks; duplicate licence files; worlds borrowed from C01 (hierarchies, overlapping globs, hard links); cpu_count imported by name; real multiprocessing.Pool as fidelity variant (thorough).",
+ "C15": "name-prefix siblings and back-up-like names; non-UTF-8 ignored names; adjacent ignored directories; user-level ignore rules; submodules; annotate from elsewhere (cwd / --root); explicitly named symlinks; symlinked and dangling .license companions and download destinations; disk-full and open failures during annotate; slow Git (deadline expiry); spdx -o on an unloadable project; every excluded file name of the statement; free-text identifiers.",
+ "C16": "stat-level faults; FIFOs; files and dep5 vanishing between listing and use; odd expressions; non-UTF-8 LicenseRef texts; mixed-type arrays under all hash seeds; keys repeated inside tables; format-sensitive project and directory names; symlink loops; one-CPU machines; completion-order pool results; stdout/stderr readers gone at descriptor level (deaths by signal are outcomes); histories that begin with a dying annotate.",
+ "C17": "escapes and wildcard-adjacent patterns with one signature per feature; prefix-overlapping pattern groups; identical paragraphs around a narrower one; symlinked dep5; next-line and oddly separated copyright values; raw-descriptor writes; non-UTF-8 locale; second conversion must be refused; cwd other than the root.",
+ "C19": "permuted --source directories with look-alike neighbours; nested directories called LICENSES as cwd; existing targets crossed with failing transfers; transient HTTP statuses, 204/206; non-ASCII texts under a non-UTF-8 locale; identifiers that begin like another; deprecated identifiers.",
+}
+
+
 def entry(pid, c):
+    c = dict(c, text=c["text"] + " Axes added while testing against independently written breaking changes (DESIGN.md 11): " + ADDED.get(pid, "-"))
     return {"property_id": pid, "quick_cmd": f"./check {pid} --tier quick", "thorough_cmd": f"./check {pid} --tier thorough",
             "evidence_file": f"evidence/{pid}.json", "replay_cmd_template": f"./check {pid} --replay {{path}}", "engine": "rsim",
             "technique": c["technique"],
